@@ -244,6 +244,10 @@ class DigitEvaluator(Evaluator):
             ta = a.toks if isinstance(a, NumStr) else [('lit', a.s)]
             tb = b.toks if isinstance(b, NumStr) else [('lit', b.s)]
             return self.norm(NumStr(ta + tb))
+        if isinstance(op, (ast.Sub, ast.Div, ast.Mult)) and (isinstance(a, (NumStr, Str)) or isinstance(b, (NumStr, Str))) \
+                and not (isinstance(op, ast.Mult) and (isinstance(a, Rat) or isinstance(b, Rat))):
+            self.string_problems.append(('str-arith', node, 'operator %s applied to a string (TypeError)' % type(op).__name__))
+            return self.unknown('string arithmetic', node)
         return Evaluator.binop(self, op, a, b, node)
 
     # ---- parsing back
